@@ -46,6 +46,19 @@ check("C05",
       "TLA+ spec (C05_Attributes, C05_MC) model-checked with TLC; transition-cover replay into DataContainer/Attribute/ArrayAttribute; TLC trace validation (C05_Trace)",
       "DESIGN.md 6.5")
 
+check("C01",
+      "TLC enumerates every oriented manifold polygon complex with <= 5 vertices and <= 4 (quick) / 5 (thorough) faces of "
+      "arity 3-4 (checking the oracle's own identities on each) and explores the lazy-cache state graph of SurfaceMesh "
+      "(48 cache states x 47 query kinds; NoSpuriousFailure). Each complex (randomly renumbered, rotated, shuffled; "
+      "neighbourhood sorting on and off), library shapes and mutilated variants are built as real SurfaceMesh objects; "
+      "every query kind is issued with all of its arguments along every transition of the cache graph (first query on a "
+      "fresh mesh, after clear, after clear_boundary_data) and in random permutations; TLC judges every answer against "
+      "MeshCore (half-edge map from the face list), rings as rotations in one consistent direction.",
+      "Exhaustive only within the enumeration bounds; larger inputs are library shapes up to ~100 faces. Non-manifold or "
+      "non-oriented inputs are skipped (outside the quantifier). Trusted: TLC, MeshCore.tla (self-checked by MeshEnum's identities), JSON projection in harness/c01.py.",
+      "TLA+ oracle (MeshCore) + cache-state model (C01_MC) + exhaustive input enumeration (MeshEnum) with TLC; replay into SurfaceMesh; TLC trace validation (C01_Trace)",
+      "DESIGN.md 6.1")
+
 ALL = ["C%02d" % i for i in range(1, 21)]
 
 
